@@ -130,6 +130,11 @@ impl<'a> DocGen<'a> {
                 _ => {
                     if self.r.chance(1, 2) {
                         I::Auto("https://example.com/auto".to_string())
+                    } else if self.r.chance(1, 3) {
+                        // a link two levels deep in emphasis (bold-italic, or strike inside emphasis)
+                        let url = self.link_url_for(false);
+                        let link = I::Link { text: self.words(1, 2), url };
+                        if self.r.chance(1, 2) { I::Emph(vec![I::Strong(vec![link])]) } else { I::Strong(vec![I::Strike(vec![I::Word(self.word()), link])]) }
                     } else {
                         let inner = self.words(1, 2);
                         I::Emph(vec![I::Strong(inner)])
